@@ -901,6 +901,250 @@ def _normalise_function(fn: FuncNode) -> None:
         fn.body = prune(fn.body) or [ast.copy_location(ast.Pass(), fn)]
 
 
+# ---- module-level normal forms: code motion undone -------------------------------------------------------------------------
+#   N9   `@deco def m(self, ...): BODY` where `def deco(f): def w(self, *a, **k): PRE; f(self, *a, **k); POST; return w`
+#                                                                              ->  def m(self, ...): PRE; BODY; POST
+#   N10  a statement `helper(args)` / `self._helper(args)` whose callee (same module / same class) has a single call site, no
+#        return value and no early return                                      ->  the callee's body with its parameters substituted
+#   N11  `for x in gen(args): BODY` where gen (same module, single call site) is a generator with one `yield E` as the last
+#        statement of its loop                                                 ->  gen's body with `yield E` replaced by `x = E; BODY`
+
+def _doc_stripped(body: T.List[ast.stmt]) -> T.List[ast.stmt]:
+    return [st for st in body if not (isinstance(st, ast.Expr) and isinstance(st.value, ast.Constant) and isinstance(st.value.value, str))]
+
+
+def _relocate(node: ast.AST, at: ast.AST) -> ast.AST:
+    for n in ast.walk(node):
+        if hasattr(n, 'lineno'):
+            n.lineno = getattr(at, 'lineno', 0)
+            n.end_lineno = getattr(at, 'end_lineno', getattr(at, 'lineno', 0))
+            n.col_offset = getattr(at, 'col_offset', 0)
+            n.end_col_offset = getattr(at, 'end_col_offset', 0)
+    return node
+
+
+def _subst_params(body: T.List[ast.stmt], mapping: T.Dict[str, ast.AST]) -> T.List[ast.stmt]:
+    class S(ast.NodeTransformer):
+        def visit_Name(self, n: ast.Name) -> ast.AST:
+            if n.id in mapping and isinstance(n.ctx, ast.Load):
+                return _copy.deepcopy(mapping[n.id])
+            return n
+    return [S().visit(_copy.deepcopy(st)) for st in body]
+
+
+def _simple_params(fn: FuncNode) -> T.Optional[T.List[str]]:
+    a = fn.args
+    if a.vararg or a.kwarg or a.kwonlyargs or a.posonlyargs:
+        return None
+    return [x.arg for x in a.args]
+
+
+def _bind_simple(call: ast.Call, params: T.List[str], fn: FuncNode) -> T.Optional[T.Dict[str, ast.AST]]:
+    out: T.Dict[str, ast.AST] = {}
+    if any(isinstance(a, ast.Starred) for a in call.args) or any(k.arg is None for k in call.keywords) or len(call.args) > len(params):
+        return None
+    for p_, a in zip(params, call.args):
+        out[p_] = a
+    for k in call.keywords:
+        if k.arg not in params or k.arg in out:
+            return None
+        out[k.arg] = k.value       # type: ignore[index]
+    defaults = fn.args.defaults
+    for p_, d_ in zip(params[len(params) - len(defaults):], defaults):
+        out.setdefault(p_, d_)
+    if set(out) != set(params):
+        return None
+    # arguments must be stable expressions (names, attribute chains, constants): no re-evaluation hazards
+    if not all(attr_chain(v) is not None or isinstance(v, ast.Constant) for v in out.values()):
+        return None
+    return out
+
+
+def _inline_module(tree: ast.Module) -> None:
+    top: T.Dict[str, FuncNode] = {st.name: st for st in tree.body if isinstance(st, (ast.FunctionDef, ast.AsyncFunctionDef))}
+    classes = [st for st in tree.body if isinstance(st, ast.ClassDef)]
+    allfuncs: T.List[T.Tuple[T.Optional[ast.ClassDef], FuncNode]] = [(None, f) for f in top.values()]
+    for c in classes:
+        allfuncs += [(c, st) for st in c.body if isinstance(st, (ast.FunctionDef, ast.AsyncFunctionDef))]
+
+    # ---- N9 guard decorators
+    for c, fn in allfuncs:
+        keep = []
+        for d in fn.decorator_list:
+            dn = d.id if isinstance(d, ast.Name) else None
+            deco = top.get(dn or '')
+            done = False
+            if deco is not None and len(deco.args.args) == 1 and not deco.args.vararg:
+                body = _doc_stripped(deco.body)
+                if len(body) == 2 and isinstance(body[0], ast.FunctionDef) and isinstance(body[1], ast.Return) and isinstance(body[1].value, ast.Name) \
+                        and body[1].value.id == body[0].name:
+                    w, fpar = body[0], deco.args.args[0].arg
+                    wa = w.args
+                    if wa.args and wa.vararg and wa.kwarg and len(wa.args) == 1 and fn.args.args:
+                        selfw, va, kw = wa.args[0].arg, wa.vararg.arg, wa.kwarg.arg
+                        wbody = _doc_stripped(w.body)
+                        fw = [st for st in ast.walk(w) if isinstance(st, ast.Call) and isinstance(st.func, ast.Name) and st.func.id == fpar]
+                        ok = len(fw) == 1 and [norm(a) for a in fw[0].args] == [selfw, f'*{va}'] and len(fw[0].keywords) == 1 and fw[0].keywords[0].arg is None \
+                            and norm(fw[0].keywords[0].value) == kw
+                        other_uses = sum(1 for n in ast.walk(w) if isinstance(n, ast.Name) and n.id in (va, kw, fpar)) - 3
+                        if ok and other_uses == 0:
+                            def place(stmts: T.List[ast.stmt]) -> T.Optional[T.List[ast.stmt]]:
+                                out: T.List[ast.stmt] = []
+                                hit = False
+                                for st in stmts:
+                                    if isinstance(st, (ast.Expr, ast.Return)) and st.value is fw[0]:
+                                        out += fn.body
+                                        hit = True
+                                        continue
+                                    st2 = _copy.copy(st)
+                                    for field in ('body', 'orelse', 'finalbody'):
+                                        sub = getattr(st2, field, None)
+                                        if isinstance(sub, list) and sub and isinstance(sub[0], ast.stmt):
+                                            r_ = place(sub)
+                                            if r_ is not None:
+                                                setattr(st2, field, r_)
+                                                hit = True
+                                    out.append(st2)
+                                return out if hit else None
+                            nb = place(wbody)
+                            if nb is not None:
+                                first = fn.args.args[0].arg
+                                renamed = _subst_params([x for x in nb if x not in fn.body], {selfw: ast.Name(id=first, ctx=ast.Load())}) if False else nb
+                                # rename the wrapper's self to the method's first parameter in the wrapper part only
+                                class R(ast.NodeTransformer):
+                                    def visit_Name(self, n: ast.Name) -> ast.AST:
+                                        if n.id == selfw and selfw != first:
+                                            return ast.copy_location(ast.Name(id=first, ctx=n.ctx), n)
+                                        return n
+                                orig_ids = {id(x) for b_ in fn.body for x in ast.walk(b_)}
+                                newbody = []
+                                for st in renamed:
+                                    if id(st) in orig_ids:
+                                        newbody.append(st)
+                                    else:
+                                        st = _copy.deepcopy(st) if not any(id(x) in orig_ids for x in ast.walk(st)) else st
+                                        newbody.append(_relocate_shallow(R().visit(st), fn, orig_ids))
+                                fn.body = newbody
+                                done = True
+            if not done:
+                keep.append(d)
+        fn.decorator_list = keep
+
+    # call sites per callee name (module functions by bare name, methods by self.<name> inside their class)
+    def count_sites(name: str, cls: T.Optional[ast.ClassDef]) -> T.List[T.Tuple[FuncNode, ast.Call]]:
+        hits = []
+        for c, fn in allfuncs:
+            for n in ast.walk(fn):
+                if isinstance(n, ast.Call):
+                    if cls is None and isinstance(n.func, ast.Name) and n.func.id == name:
+                        hits.append((fn, n))
+                    elif cls is not None and c is cls and attr_chain(n.func) == f'self.{name}':
+                        hits.append((fn, n))
+        return hits
+
+    def refs_elsewhere(name: str, cls: T.Optional[ast.ClassDef], ncalls: int) -> bool:
+        total = 0
+        for n in ast.walk(tree):
+            if cls is None and isinstance(n, ast.Name) and n.id == name and isinstance(n.ctx, ast.Load):
+                total += 1
+            elif cls is not None and isinstance(n, ast.Attribute) and n.attr == name:
+                total += 1
+        return total != ncalls
+
+    def replace_stmt(holder: FuncNode, target: ast.stmt, new: T.List[ast.stmt]) -> bool:
+        def rec(stmts: T.List[ast.stmt]) -> bool:
+            for i, st in enumerate(stmts):
+                if st is target:
+                    stmts[i:i + 1] = new
+                    return True
+                for field in ('body', 'orelse', 'finalbody'):
+                    sub = getattr(st, field, None)
+                    if isinstance(sub, list) and sub and isinstance(sub[0], ast.stmt) and not isinstance(st, (ast.FunctionDef, ast.AsyncFunctionDef, ast.ClassDef)):
+                        if rec(sub):
+                            return True
+                for h in getattr(st, 'handlers', []):
+                    if rec(h.body):
+                        return True
+            return False
+        return rec(holder.body)
+
+    for _round in range(2):
+        for cls, callee in list(allfuncs):
+            name = callee.name
+            if name.startswith('__') or not name.startswith('_'):
+                continue       # only private helpers (the product of an extract-function step) are folded back
+            params = _simple_params(callee)
+            if params is None:
+                continue
+            sites = count_sites(name, cls)
+            if len(sites) != 1 or refs_elsewhere(name, cls, 1) or callee.decorator_list:
+                continue
+            holder, call = sites[0]
+            if holder is callee:
+                continue
+            body = _doc_stripped(callee.body)
+            if not body or len(body) > 30:
+                continue
+            is_gen = any(isinstance(n, (ast.Yield, ast.YieldFrom)) for n in walk_no_nested(callee))
+            pnames = params[1:] if cls is not None else params
+            if cls is not None and (not params or params[0] != 'self'):
+                continue
+            bound = _bind_simple(call, pnames, callee)
+            if bound is None:
+                continue
+            stored = {n.id for n in walk_no_nested(callee) if isinstance(n, ast.Name) and isinstance(n.ctx, ast.Store)}
+            if stored & set(pnames):
+                continue       # the callee rebinds a parameter: substitution would change the caller's variable
+            hnames = {n.id for n in walk_no_nested(holder) if isinstance(n, ast.Name)} | {a.arg for a in holder.args.args}
+            if not is_gen:
+                # N10: the call is a whole statement, the callee returns nothing and has no early return
+                stmt = next((st for st in ast.walk(holder) if isinstance(st, ast.Expr) and st.value is call), None)
+                if stmt is None or any(isinstance(n, ast.Return) for n in walk_no_nested(callee)):
+                    continue
+                if (stored - set(pnames)) & hnames:
+                    continue
+                new = [_relocate(x, stmt) for x in _subst_params(body, bound)]
+                replace_stmt(holder, stmt, new)
+            else:
+                # N11: for x in gen(...): BODY
+                loop = next((st for st in ast.walk(holder) if isinstance(st, ast.For) and st.iter is call and isinstance(st.target, ast.Name) and not st.orelse), None)
+                ys = [n for n in walk_no_nested(callee) if isinstance(n, (ast.Yield, ast.YieldFrom))]
+                if loop is None or len(ys) != 1 or not isinstance(ys[0], ast.Yield) or ys[0].value is None or any(isinstance(n, ast.Return) for n in walk_no_nested(callee)):
+                    continue
+                gl = [st for st in walk_no_nested(callee) if isinstance(st, (ast.For, ast.While)) and st.body and isinstance(st.body[-1], ast.Expr) and st.body[-1].value is ys[0]]
+                if len(gl) != 1 or sum(1 for st in walk_no_nested(callee) if isinstance(st, (ast.For, ast.While))) != 1:
+                    continue
+                if ((stored - {loop.target.id}) - set(pnames)) & hnames:
+                    continue
+                gbody = _subst_params(body, bound)
+                # find the copied loop and splice BODY after `x = E`
+                for st in [x for b_ in gbody for x in ast.walk(b_)]:
+                    if isinstance(st, (ast.For, ast.While)) and st.body and isinstance(st.body[-1], ast.Expr) and isinstance(st.body[-1].value, ast.Yield):
+                        e = st.body[-1].value.value
+                        bind: T.List[ast.stmt] = [] if (isinstance(e, ast.Name) and e.id == loop.target.id) else \
+                            [ast.Assign(targets=[ast.Name(id=loop.target.id, ctx=ast.Store())], value=e)]
+                        st.body = st.body[:-1] + bind + loop.body
+                new = [ast.fix_missing_locations(_relocate_keep(x, loop)) for x in gbody]
+                replace_stmt(holder, loop, new)
+
+
+def _relocate_keep(node: ast.AST, at: ast.AST) -> ast.AST:
+    """Give nodes without a position the position of `at` (nodes moved from elsewhere keep theirs only if inside `at`'s range)."""
+    lo, hi = getattr(at, 'lineno', 0), getattr(at, 'end_lineno', getattr(at, 'lineno', 0))
+    for n in ast.walk(node):
+        ln = getattr(n, 'lineno', None)
+        if isinstance(n, (ast.expr, ast.stmt, ast.excepthandler)) and (ln is None or not (lo <= ln <= hi)):
+            n.lineno, n.end_lineno, n.col_offset, n.end_col_offset = lo, hi, 0, 0     # type: ignore[attr-defined]
+    return node
+
+
+def _relocate_shallow(node: ast.AST, fn: FuncNode, keep_ids: T.Set[int]) -> ast.AST:
+    for n in ast.walk(node):
+        if id(n) not in keep_ids and isinstance(n, (ast.expr, ast.stmt, ast.excepthandler)):
+            n.lineno, n.end_lineno, n.col_offset, n.end_col_offset = fn.lineno, fn.lineno, 0, 0     # type: ignore[attr-defined]
+    return node
+
+
 class NormModule(Module):
     """A Module whose functions are in the normal form above."""
 
@@ -933,6 +1177,12 @@ class NormModule(Module):
             for n in ast.walk(self.tree):
                 if isinstance(n, (ast.FunctionDef, ast.AsyncFunctionDef)):
                     n.body = [_K().visit(b) for b in n.body]
+        nfun = sum(1 for n in ast.walk(self.tree) if isinstance(n, (ast.FunctionDef, ast.AsyncFunctionDef)))
+        if nfun <= 120:         # the installer / uninstaller modules; the big backend modules are read for tables only
+            try:
+                _inline_module(self.tree)
+            except RecursionError:     # pragma: no cover
+                pass
         for n in ast.walk(self.tree):
             if isinstance(n, (ast.FunctionDef, ast.AsyncFunctionDef)):
                 try:
